@@ -49,3 +49,66 @@ Proof. exact tc_runs. Qed.
 Print Assumptions c01_least_model. Print Assumptions c01_inputs_kept. Print Assumptions c01_stops_only_at_fixpoint.
 Print Assumptions c01_least_model_unique. Print Assumptions c01_oracle_correct.
 Print Assumptions c01_example_hypotheses. Print Assumptions c01_example_runs.
+
+(* ================= the PLANNER inside the model =================
+   Plan/PlanModel.v compile_model is a Gallina mirror of the macro's planner (ascent_hir.rs: index columns per clause,
+   simple-join detection, reorderable; ascent_mir.rs: semi-naive version vectors, dynamic relations, is_looping), taking the
+   SCC partition (petgraph's condensation, dumped) as an input.  It is compared structurally with the plan the real macro
+   dumps on every run (gen/plan_model.py).  For EVERY well-formed core program and EVERY partition satisfying the decidable
+   condition sccs_ok the computed plan is accepted by the validator, hence planner + engine compute the least model: the
+   statement no longer depends on a plan having been dumped and validated for the particular program. *)
+From AV Require Plan.PlanModel.
+From AV Require Plan.PlanWf.
+From AV Require Plan.PlanProofs.
+From AV Require Plan.PlanMain.
+
+Theorem c01_planner_output_is_valid : forall arities P sccs,
+  PlanWf.wf_core arities P = true -> PlanWf.sccs_ok P sccs = true ->
+  validate arities P (PlanModel.compile_model arities P sccs) = true.
+Proof. exact PlanProofs.compile_model_valid. Qed.
+
+Theorem c01_planner_and_engine_least_model : forall (I : interp) swap arities P sccs fuel F0 st,
+  arities_functional arities -> wf_facts arities F0 = true -> no_agg P = true ->
+  PlanWf.wf_core arities P = true -> PlanWf.sccs_ok P sccs = true ->
+  run_plan I swap fuel (PlanModel.compile_model arities P sccs) (init_state F0) = Some st ->
+  least_model I P F0 (rows st)
+  /\ exists added, rows st = F0 ++ added /\ NoDup added /\ (forall f, In f added -> ~ In f F0).
+Proof. exact PlanMain.planner_engine_correct. Qed.
+
+(* ================= per-index state =================
+   Engine/IndexedEval.v keeps, as the generated code does, one physical index per (relation, column set) with its own
+   total / delta / new and its stored copy in the program value (update_indices resets and refills every index; the head
+   update checks the full index of total / delta, inserts into the full index of new and then into every other index of
+   new; the merge runs per index).  It refines the abstract engine above (rows equal as lists), so the least-model theorem
+   holds for it, and all indices of a relation list the same rows at the end ("lock-step", what a skipped index insertion
+   breaks).  Tied to the REAL index fields after run() by gen/indexed_tie.py. *)
+From AV Require Engine.IndexedEval.
+From AV Require Engine.IndexedRefine.
+From AV Require Engine.IndexedLockstep.
+
+Theorem c01_indexed_engine_least_model : forall (I : interp) swap decls pl,
+  IndexedEval.plan_idx_ok decls pl = true ->
+  forall arities P, arities_functional arities -> no_agg P = true -> validate arities P pl = true ->
+  forall fuel F0 c, wf_facts arities F0 = true -> NoDup F0 -> (forall f, In f F0 -> IndexedEval.fact_idx_ok decls f = true) ->
+  IndexedEval.run_plan_idx I swap fuel pl (IndexedEval.init_istate decls F0) = Some c ->
+  least_model I P F0 (IndexedEval.irows c)
+  /\ (exists added, IndexedEval.irows c = F0 ++ added /\ NoDup added /\ (forall f, In f added -> ~ In f F0))
+  /\ IndexedRefine.indices_agree (IndexedEval.istored c).
+Proof. exact IndexedRefine.indexed_run_least_model. Qed.
+
+(* the indexed engine and the abstract engine return the same rows (as lists), from any pair of states with equal rows *)
+Theorem c01_indexed_engine_refines : forall (I : interp) swap decls pl, IndexedEval.plan_idx_ok decls pl = true ->
+  forall fuel c a, IndexedEval.irows c = rows a -> IndexedSim.pshape (IndexedEval.istored c) = decls -> NoDup (rows a) ->
+  (forall f, In f (rows a) -> IndexedEval.fact_idx_ok decls f = true) ->
+  option_map IndexedEval.irows (IndexedEval.run_plan_idx I swap fuel pl c) = option_map rows (run_plan I swap fuel pl a).
+Proof. exact IndexedRefine.indexed_rows_eq. Qed.
+
+(* lock-step for ANY input (duplicate caller rows included), without reference to the abstract engine *)
+Theorem c01_indices_agree_after_run : forall (I : interp) swap decls fuel pl c c', IndexedEval.plan_idx_ok decls pl = true ->
+  IndexedSim.pshape (IndexedEval.istored c) = decls -> (forall f, In f (IndexedEval.irows c) -> IndexedEval.fact_idx_ok decls f = true) ->
+  IndexedEval.run_plan_idx I swap fuel pl c = Some c' ->
+  IndexedRefine.indices_agree (IndexedEval.istored c') /\ IndexedSim.pshape (IndexedEval.istored c') = decls.
+Proof. exact IndexedLockstep.indexed_run_indices_agree_any_input. Qed.
+
+Print Assumptions c01_planner_output_is_valid. Print Assumptions c01_planner_and_engine_least_model.
+Print Assumptions c01_indexed_engine_least_model. Print Assumptions c01_indexed_engine_refines. Print Assumptions c01_indices_agree_after_run.
